@@ -175,22 +175,41 @@ func scanJag(c *core.Ctx) []ob {
 							if !ok || len(is.Body.List) == 0 {
 								continue
 							}
-							leaves := false
+							leaves, breaks := false, false
 							switch l := is.Body.List[len(is.Body.List)-1].(type) {
 							case *ast.BranchStmt:
 								leaves = l.Tok == token.CONTINUE || l.Tok == token.BREAK
+								breaks = l.Tok == token.BREAK && l.Label == nil
 							case *ast.ReturnStmt:
 								leaves = true
 							}
 							if !leaves {
 								continue
 							}
+							matched := false
 							if be, ok := unparen(is.Cond).(*ast.BinaryExpr); ok {
 								if (be.Op == token.GEQ || be.Op == token.GTR) && identObj(info, be.X) == jo && mentionsIdentObj(info, be.Y, io) {
-									guarded = true
+									matched = true
 								}
 								if (be.Op == token.LEQ || be.Op == token.LSS) && identObj(info, be.Y) == jo && mentionsIdentObj(info, be.X, io) {
-									guarded = true
+									matched = true
+								}
+							}
+							if matched {
+								guarded = true
+								// `break` on "this row has no column j" is right when it leaves the column loop (no further j
+								// exists in the row either) and wrong when it leaves the row loop: the rows that follow may be
+								// longer, and are abandoned
+								if breaks {
+									for q := pm[ast.Node(is)]; q != nil; q = pm[q] {
+										if q == li.node {
+											out = append(out, violOb("JAG", key+"#break", c.Rel(is.Pos()), fmt.Sprintf("%s: `%s` leaves the loop over the rows with break when row %s has no column %s: the rows that follow, which may be longer, are skipped for that column (continue skips the row only)", fkey, exprString(is.Cond), io.Name(), jo.Name())))
+											break
+										}
+										if q == lj.node {
+											break
+										}
+									}
 								}
 							}
 						}
